@@ -11,7 +11,7 @@ namespace AIToolbox::POMDP {
         return [S, buckets](const Belief & b) {
             // This stepsize is bounded by the minimum value entropy can take for a belief:
             // when the belief is uniform it would be: S * 1/S * log(1/S) = log(1/S)
-            static const double stepSize = std::log(1.0/S) / static_cast<double>(buckets + 1);
+            const double stepSize = std::log(1.0/S) / static_cast<double>(buckets + 1);
             size_t maxS = 0;
             double entropy = 0.0;
             for ( size_t s = 0; s < S; ++s ) {
